@@ -2,7 +2,7 @@
    (pybigtools/src/lib.rs: to_array, to_entry_array, to_array_bins, to_entry_array_bins,
    to_array_zoom, to_entry_array_zoom, bin_edge, bin_index, and the fetch clamp / `match bins` /
    out-of-bounds fill of intervals_to_array and entries_to_array), after the repairs recorded in
-   known-findings.txt.  Definitions only; proofs are in Proofs/PyArrays*.v.
+   known-findings.txt (D11a-g).  Definitions only; proofs are in Proofs/PyArrays*.v.
 
    Numbers.  Positions, offsets and bin numbers are Z (the Rust i32/u32/usize/i64 values; no
    wrap-around is modelled: positions are assumed < 2^31 and products < 2^63, which the harness
@@ -225,9 +225,9 @@ Definition to_entry_array_bins (start end_ : Z) (ents : list bent) (st : stat) (
            (fun en bs be d => bed_upd (is_ en) (ie en) bs be d)
            (bed_fin st missing) (end_ - start) bins ents missing n.
 
-(* -- to_array_zoom / to_entry_array_zoom (interpolation from zoom records; not exact mode, no theorem:
-      modelled for the correspondence only).  zoom_mean = sum / bases_covered is an f64 division; the
-      harness only builds records whose sum is a whole multiple of bases_covered, where it is exact. *)
+(* -- to_array_zoom / to_entry_array_zoom (`exact = False`: bins from the records of a zoom level).
+      zoom_mean = sum / bases_covered is an f64 division; it is modelled for records whose sum is a whole
+      multiple of a positive bases_covered (the scope of the theorems and of the harness), where it is exact. *)
 Definition zmean (z : zrec) : Z := Z.quot (z_sum z) (z_bases z).
 Definition wigz_upd (st : stat) (istart iend : Z) (z : zrec) (bs be : Z) (d : option (Z * fl)) : res (option (Z * fl)) :=
   let sz := Z.min be iend - Z.max bs istart in
@@ -250,30 +250,24 @@ Definition to_array_zoom (start end_ : Z) (recs : list zrec) (st : stat) (bins :
            (fun z bs be d => wigz_upd st (is_ z) (ie z) z bs be d)
            (wig_fin st missing) (end_ - start) bins recs missing n.
 
+(* after the repair of D11g: the cells start as NAN like those of to_entry_array_bins, the mean adds to
+   max(cell, 0.0) (NAN -> 0.0), min / max ignore the NAN, and a bin whose cells are all NAN reports `missing` *)
 Definition bedz_upd (st : stat) (istart iend : Z) (z : zrec) (bs be : Z) (d : list Z * list fl) : res (list Z * list fl) :=
   let os := Z.max bs istart in
   let oe := Z.min be iend in
-  do data <- slice_upd (fun x => let x0 := fmax x (FV 0) in
-                                 match st with
-                                 | Mean => fadd x0 (FV (zmean z))
-                                 | Min => fmin x0 (FV (z_min z))
-                                 | Max => fmax x0 (FV (z_max z))
+  do data <- slice_upd (fun x => match st with
+                                 | Mean => fadd (fmax x (FV 0)) (FV (zmean z))
+                                 | Min => fmin x (FV (z_min z))
+                                 | Max => fmax x (FV (z_max z))
                                  end) (os - bs) (oe - bs) (snd d);
   do cov <- slice_upd (fun c => Z.max c 1) (os - bs) (oe - bs) (fst d);
   Ok (cov, data).
-(* the zoom variant still seeds the cells with `missing` and has no NaN filter on min/max *)
-Definition bedz_fin (st : stat) (missing : fl) (d : list Z * list fl) : out :=
-  match st with
-  | Mean => bed_mean missing d
-  | Min => match reduce fmin (snd d) with Some x => out_of_fl x | None => out_of_fl missing end
-  | Max => match reduce fmax (snd d) with Some x => out_of_fl x | None => out_of_fl missing end
-  end.
 Definition to_entry_array_zoom (start end_ : Z) (recs : list zrec) (st : stat) (bins : Z) (missing : fl) (n : nat) : res (list out) :=
   let is_ := fun z => Z.max (z_start z) start - start in
   let ie := fun z => Z.min (z_end z) end_ - start in
-  run_bins is_ ie (bed_fresh missing)
+  run_bins is_ ie (bed_fresh FNaN)
            (fun z bs be d => bedz_upd st (is_ z) (ie z) z bs be d)
-           (bedz_fin st missing) (end_ - start) bins recs missing n.
+           (bed_fin st missing) (end_ - start) bins recs missing n.
 
 (* ---- the wrappers intervals_to_array / entries_to_array, from the clamp on *)
 (* (start.max(0) as u32, end.min(length).max(0) as u32)   (d9b37ec) *)
@@ -371,3 +365,26 @@ Definition base_cell (sig : Z -> option Z) (length : Z) (missing oob : fl) (p : 
 Definition bin_cell (sig : Z -> option Z) (length : Z) (st : stat) (missing oob : fl) (lo hi : Z) : out :=
   if (lo <? 0) || (length <? hi) then out_of_fl oob
   else stat_of st missing (covered_vals sig lo hi).
+
+(* ---- zoom mode (`exact = False`): what a bin reports, computed from the records of the zoom level.
+   [zov lo hi z] = number of bases of record z inside [lo, hi).  Over the records that overlap the bin's
+   span: mean = the records' means weighted by their overlap with the span, min / max = the smallest
+   min_val / largest max_val; `missing` when no record overlaps.  [mval] is the mean a record contributes:
+   [zmean] in to_array_zoom, [zmean0] in to_entry_array_zoom (its final sum maps every cell through
+   max(0.0), which changes nothing for the non-negative depth statistics a bigBed zoom level holds). *)
+Definition zov (lo hi : Z) (z : zrec) : Z := Z.min hi (z_end z) - Z.max lo (z_start z).
+Definition zmean0 (z : zrec) : Z := Z.max (zmean z) 0.
+Definition zoom_stat (mval : zrec -> Z) (st : stat) (missing : fl) (recs : list zrec) (lo hi : Z) : out :=
+  match filter (fun z => 0 <? zov lo hi z) recs with
+  | [] => out_of_fl missing
+  | x :: r => match st with
+              | Mean => OQ (fold_left Z.add (map (fun z => zov lo hi z * mval z) (x :: r)) 0)
+                           (fold_left Z.add (map (zov lo hi) (x :: r)) 0)
+              | Min => OQ (fold_left Z.min (map z_min r) (z_min x)) 1
+              | Max => OQ (fold_left Z.max (map z_max r) (z_max x)) 1
+              end
+  end.
+(* cell of the bin that spans [lo, hi) *)
+Definition zoom_cell (mval : zrec -> Z) (recs : list zrec) (length : Z) (st : stat) (missing oob : fl) (lo hi : Z) : out :=
+  if (lo <? 0) || (length <? hi) then out_of_fl oob
+  else zoom_stat mval st missing recs lo hi.
